@@ -105,6 +105,18 @@ func genC07Op(sc *Scenario, r *engine.PRNG, cfg world.InstCfg, types []string, f
 			return op, false
 		}
 		op.Data = d
+		if r.Intn(4) == 0 && len(d) >= 4 {
+			// another caller's record arrives damaged (torn or one byte rotten): the
+			// call must still behave as it does alone, and must not disturb the others
+			raw, _ := hex.DecodeString(d)
+			if r.Intn(2) == 0 {
+				raw = raw[:1+r.Intn(len(raw)-1)]
+			} else {
+				raw[r.Intn(len(raw))] ^= byte(1 << uint(r.Intn(8)))
+			}
+			op.Data = hex.EncodeToString(raw)
+			op.Pat = "damaged"
+		}
 	default:
 		op.Kind = "codec"
 		if r.Intn(3) == 0 {
@@ -136,11 +148,22 @@ func GenC07(seed uint64, idx int) *Scenario {
 			sc.Shared = append(sc.Shared, SharedVal{Type: tn, VSeed: r.Next() | 1, VSize: 4 + r.Intn(16)})
 		}
 	}
+	// most operations of a run use one focus type, so that callers meet on the
+	// same codec, pool and tables also in the steady state
+	focus := types[r.Intn(len(types))]
+	steady := r.Intn(3) == 0
 	for t := 0; t < nt; t++ {
 		nops := 1 + r.Intn(4)
+		if steady {
+			nops = 3 + r.Intn(4)
+		}
 		var ops []Op
 		for len(ops) < nops {
-			op, ok := genC07Op(sc, &r, cfg, types, fam)
+			pick := types
+			if r.Intn(10) < 7 {
+				pick = []string{focus}
+			}
+			op, ok := genC07Op(sc, &r, cfg, pick, fam)
 			if !ok {
 				nops--
 				continue
@@ -162,7 +185,8 @@ type SweepJob struct {
 	A, B   Op
 	Sites  []string
 	Vocabs [][]string
-	Pre    []Op // run by task A before the swept operation (warm-up), without preemption
+	Pre    []Op // history task A lives through before its swept operation
+	Steady bool // codecs are built before the run; the pool seam always recycles
 }
 
 // C07SweepJobs enumerates the (configuration, ordered pair) jobs.
@@ -201,6 +225,62 @@ func C07SweepJobs(seed uint64, quick bool) []SweepJob {
 			}
 		}
 	}
+	return append(jobs, c07SteadyJobs(seed, quick)...)
+}
+
+var steadyTypes = []string{"MapKS", "MapKV", "Maps", "MapSI", "map[string]*Node", "Sym", "SymBox", "Wide", "V2", "JDoc", "MTarget", "RA"}
+
+// c07SteadyJobs: the sweep for the steady state. Task A first lives through a
+// short history on the shared instance (damaged records - aborted operations -
+// and a valid one), then decodes a valid record; task B decodes another valid
+// record of the same type and is placed at every yield of A in turn. The pool
+// seam always recycles, so whatever the history left in the scratch pool is
+// handed out again.
+func c07SteadyJobs(seed uint64, quick bool) []SweepJob {
+	r := engine.PRNG{S: engine.Mix(seed, 0x57EAD1)}
+	var jobs []SweepJob
+	reps := 2
+	if !quick {
+		reps = 10
+	}
+	sites := append(append([]string{"op.begin"}, steadySites...), "slice.varint")
+	for _, cfg := range []world.InstCfg{{}, {ProtoArrays: true}} {
+		for _, tn := range steadyTypes {
+			if !world.TopOK(&world.TypeInfo{T: typeInfo(tn).T, Top: true}, cfg) {
+				continue
+			}
+			for k := 0; k < reps; k++ {
+				sc := &Scenario{}
+				mk := func() (Op, bool) {
+					op := Op{Kind: "unmarshal", Type: tn, VSeed: r.Next() | 1, VSize: 4 + r.Intn(12)}
+					d, ok := encodeFor(sc, cfg, &op)
+					op.Data = d
+					return op, ok
+				}
+				var pre []Op
+				for j := 0; j < 1+r.Intn(3); j++ {
+					op, ok := mk()
+					if !ok || len(op.Data) < 8 {
+						continue
+					}
+					raw, _ := hex.DecodeString(op.Data)
+					if r.Intn(3) == 0 {
+						raw = raw[:1+r.Intn(len(raw)-1)]
+					} else {
+						raw[r.Intn(len(raw))] ^= byte(1 << uint(r.Intn(8)))
+					}
+					op.Data, op.Pat = hex.EncodeToString(raw), "damaged"
+					pre = append(pre, op)
+				}
+				a, ok1 := mk()
+				b, ok2 := mk()
+				if !ok1 || !ok2 {
+					continue
+				}
+				jobs = append(jobs, SweepJob{Prop: "C07", Cfg: cfg, A: a, B: b, Pre: pre, Sites: sites, Steady: true})
+			}
+		}
+	}
 	return jobs
 }
 
@@ -214,10 +294,14 @@ func SweepScenario(seed uint64, job SweepJob, jobIdx int, i int) *Scenario {
 	if sites == nil {
 		sites = append(append([]string(nil), buildSites...), "struct.append", "struct.read")
 	}
-	return &Scenario{
+	sc := &Scenario{
 		Prop: prop, Seed: seed, Index: -1 - jobIdx, Insts: []world.InstCfg{job.Cfg},
-		Tasks: [][]Op{{job.A}, {job.B}}, Sites: sites, Vocabs: job.Vocabs,
+		Tasks: [][]Op{append(append([]Op(nil), job.Pre...), job.A), {job.B}}, Sites: sites, Vocabs: job.Vocabs,
 		Policy:   engine.Policy{Kind: "sweep", SweepA: 0, SweepB: 1, SweepI: i},
 		PoolSeam: false, Note: "sweep",
 	}
+	if job.Steady {
+		sc.PoolSeam, sc.PoolBias, sc.Warm, sc.Note = true, 100, true, "steady-sweep"
+	}
+	return sc
 }
